@@ -232,4 +232,18 @@ theorem tables_consistent :
     shadowed at top level are listed names; the table, the tree and the row chunks have one size -/
 theorem namespaces_closed : namespacesClosed = true := by decide +kernel
 
+/-! ### the generator of the name tables -/
+
+/-- `generate_name_alternatives` is reproduced by the model: for every table key, the body of the
+    outer loop (`NameGen.genKey`: the prefix loop, the title-case heuristics with their length and
+    case conditions, the duplicate guard and its `u`/`μ` exemption), started in the state the real
+    generator had when it reached that key (`seen` = the names listed before it), appends exactly
+    the entries of `inv_name_alternatives` / `name_alternatives` that the real generator appended
+    there — same names, same order, same canonical names, same listing keys; and the key positions
+    partition the whole table.  (The fold of the body over the table is run compiled by the driver
+    and compared with the live tables: opcode `c14.gen`.) -/
+theorem names_generator_matches :
+    (∀ i, i < lutC.length → genKeyOk i = true) ∧ keyStartsOk = true :=
+  ⟨genKey_all, by decide +kernel⟩
+
 end Unyt.C14
